@@ -166,7 +166,7 @@ def preStep (x : Row × Nat) : Row :=
 
 theorem step_eq_autoTransit_preStep (x : Row × Nat) :
     (x.1.1, step x.1.1 x.1.2 x.2) = (x.1.1, autoTransit x.1.1 (fuel x.1.1) (preStep x).2) := by
-  simp only [step, preStep]
+  simp only [step_eq, preStep]
   cases hd : x.1.2.done with
   | true =>
     simp only [if_true]
@@ -217,7 +217,7 @@ theorem stepBatch_eq_map_step (M : Nat) (ra : List (Row × Nat))
       apply List.map_congr_left
       intro x hx
       obtain ⟨⟨hwf, hinv, _⟩, _⟩ := hok x hx
-      simp only [Function.comp, preStep, noOpSel, reqSel]
+      simp only [Function.comp, preStep, noOpSel_eq, reqSel_eq]
       by_cases hd : x.1.2.done = true
       · simp [hd, release_id hinv]
       · by_cases ha0 : x.2 = 0
@@ -228,15 +228,15 @@ theorem stepBatch_eq_map_step (M : Nat) (ra : List (Row × Nat))
       apply List.map_congr_left
       intro x hx
       have hn := hno rfl x hx
-      simp only [Function.comp, preStep, reqSel]
-      simp only [noOpSel, Bool.and_eq_false_iff, beq_eq_false_iff_ne, Bool.not_eq_false'] at hn
+      simp only [Function.comp, preStep, reqSel_eq]
+      simp only [noOpSel_eq, Bool.and_eq_false_iff, beq_eq_false_iff_ne, Bool.not_eq_false'] at hn
       by_cases hd : x.1.2.done = true
       · simp [hd]
       · rcases hn with hn | hn
         · simp [hd, hn]
         · exact absurd hn hd
   unfold stepBatch
-  simp only []
+  simp only [shifted_eq]
   rw [hpre (ra.any noOpSel) (fun h x hx => by
     have := List.any_eq_false.mp h x hx; simpa using this)]
   rw [autoTransitBatch_eq_map M]
@@ -291,7 +291,7 @@ theorem repad_step (i : Inst) (N' : Nat) (pad' : Nat → Bool) (s : State) (a : 
   have h1 : transit (repad i N' pad') s = transit i s := rfl
   have h2 : makeStep (repad i N' pad') s (a - 1) = makeStep i s (a - 1) := rfl
   have h3 : fuel (repad i N' pad') = fuel i := rfl
-  simp only [env, step, h1, h2, h3, autoTransit_repad]
+  simp only [env, step_eq, h1, h2, h3, autoTransit_repad]
 
 theorem maxOver_extend {keep : Nat → Bool} {f : Nat → Int} {n : Nat} (k : Nat)
     (h : ∀ o, n ≤ o → o < n + k → keep o = false) : maxOver (n + k) keep f = maxOver n keep f := by
